@@ -24,14 +24,15 @@ CLAIMS = {
    text="Coq theorems over ASModel (all states, all scheduler choices incl. spurious failure): the exchange step of compare_and_swap "
         "writes iff the stored pointer equals current at that step and then stores exactly new; it is reached only when the loaded pointer "
         "equals current, otherwise the loaded guard is returned and new loses exactly one reference; success returns a guard on current. " + TIE,
-   note=NOTE + "Partial: local step theorems; identity (not address) equality under A-B-A needs the protection invariant; the five forms "
-        "of `current` are compared by the sequential differential run.",
+   note=NOTE + "A-B-A: C05_no_aba (ASModel/Alive.v, all schedules within Main.RunOK) - while the exchange frame exists the compared value is the guarded one, it is alive and the "
+        "object at that address stays the same object across every step of any thread; the forms of `current` are compared by the sequential differential run (C14).",
    technique="Rocq/Coq proof (step lemmas on the model) + trace correspondence"),
  "C06": dict(engine="ASModel",
    text="Coq theorems over ASModel: every rcu attempt exchanges against exactly the pointer whose guard was passed to the closure, a "
         "failed attempt continues with the reported value, a successful one returns the replaced value; with C05/C04 the installed value "
         "sits directly on top of the value read. " + TIE,
-   note=NOTE + "Partial: the counting corollary over all schedules (k increments add k) is checked by the correspondence oracle only.",
+   note=NOTE + "C06_guard_keeps_identity: the guard rcu holds keeps the closure's input alive and identical across every step (all schedules within Main.RunOK). The counting "
+        "corollary (k increments add k) is checked by the correspondence oracle.",
    technique="Rocq/Coq proof (step lemmas on the model) + trace correspondence"),
  "C08": dict(engine="ASModel",
    text="Coq theorems over ASModel: a strictly decreasing measure on the program points of load/load_full that holds in every shared "
@@ -219,7 +220,7 @@ CLAIMS["C01"].update(
         "and containers, any programs and ANY schedule, no thread ever faults and no step touches the count of a destroyed value (C01_no_fault_events: no fault event at all); "
         "at every count access the value's count is >= 1 (no_dead_access), on the fast path, the fallback and the helped path, for any number of guards, with freed addresses "
         "reused at the scheduler's choice. " + MASTER + TIE + " Any FAULT of the harness arena or the model is a finding; the executable protection invariants run on every state.",
-   note=NOTE + "Sequentially consistent interleavings (weak-memory executions: C07). The generation wrap is outside RunOK (C13 proves no panic there; correspondence with preset counters). "
+   note=NOTE + "Objects are untyped: the type confusion of known finding D3 (listed under C12, reproduced by harness/typed) is outside this theorem. Sequentially consistent interleavings (weak-memory executions: C07). The generation wrap is outside RunOK (C13 proves no panic there; correspondence with preset counters). "
         "Cache commands are outside RunOK (C16).",
    technique="Rocq/Coq proof (inductive invariant over all schedules: accounting + protection + exchange of finite sums) + trace correspondence")
 CLAIMS["C02"].update(
@@ -268,7 +269,9 @@ CLAIMS["C12"].update(
         "word answers a request for the writer's own container (generation uniqueness); C12_accounting - the count equation is exact with one value in several containers; a step of "
         "any frame leaves other containers' storage alone, each container's writes form their own chain. Defects D2 and D8 were violations of this, found and repaired. " + TIE +
         " Provenance oracle per container; multi-container programs; D8 grid.",
-   note=NOTE + "Containers of different pointee types: C15/C19.",
+   note=NOTE + "Objects of the model are untyped. Containers of DIFFERENT pointee types: known finding D3 (a reader releases, as its own type, a reference a writer of another "
+        "container put on an object of another type at a reused address: type confusion) is reproduced deterministically on the real crate by harness/typed on every run and printed "
+        "as KNOWN-FINDING; the same-type control must behave correctly.",
    technique="Rocq/Coq proof (inductive invariants over all schedules) + trace correspondence with a provenance oracle")
 
 REASONS = {}
